@@ -260,7 +260,9 @@ def props_check(prop_file):
 
 def coq_str(s):
     """Coq term of type [bytes] for a Python str/bytes"""
-    bs_ = s.encode("utf-8") if isinstance(s, str) else bytes(s)
+    # lone surrogates (from \uD800-style escapes in mutated JSON) have no UTF-8 encoding: keep them as their
+    # three-byte generalised form instead of crashing the driver
+    bs_ = s.encode("utf-8", "surrogatepass") if isinstance(s, str) else bytes(s)
     if all(32 <= c < 127 and c != 34 for c in bs_):
         return '(b "%s")' % bs_.decode("ascii")
     return "(bs [%s])" % "; ".join(str(c) for c in bs_)
